@@ -60,6 +60,42 @@ fn expand(tok: &str) -> Vec<u8> {
     }
 }
 
+/// Name tokens: `%e` is the empty name, `%XX` a byte.
+fn unesc(tok: &str) -> String {
+    if tok == "%e" {
+        return String::new();
+    }
+    let b = tok.as_bytes();
+    let mut out = Vec::new();
+    let mut i = 0;
+    while i < b.len() {
+        if b[i] == b'%' && i + 2 < b.len() + 0 && i + 2 <= b.len() - 1 + 0 {
+            if let Ok(v) = u8::from_str_radix(&tok[i + 1..i + 3], 16) {
+                out.push(v);
+                i += 3;
+                continue;
+            }
+        }
+        out.push(b[i]);
+        i += 1;
+    }
+    String::from_utf8_lossy(&out).to_string()
+}
+
+fn esc_path(p: &str) -> String {
+    let mut o = String::new();
+    for b in p.bytes() {
+        if b <= 0x20 || b == b'%' || b == 0x7f { o.push_str(&format!("%{:02x}", b)); } else { o.push(b as char); }
+    }
+    // bytes >= 0x80 were pushed as Latin-1 chars above; redo properly for UTF-8
+    let mut v = Vec::new();
+    for b in p.bytes() {
+        if b <= 0x20 || b == b'%' || b == 0x7f { v.extend_from_slice(format!("%{:02x}", b).as_bytes()); } else { v.push(b); }
+    }
+    let _ = o;
+    String::from_utf8_lossy(&v).to_string()
+}
+
 fn show(content: &[u8]) -> String {
     if content.is_empty() {
         return "empty".into();
@@ -145,7 +181,7 @@ fn snapshot(out: &mut impl Write, root: &Path) {
                 Ok(m) => m,
                 Err(_) => continue,
             };
-            let rel = p.strip_prefix(root).unwrap().to_string_lossy().to_string();
+            let rel = esc_path(&p.strip_prefix(root).unwrap().to_string_lossy());
             if md.is_dir() {
                 writeln!(out, "F {} d {:o} {} - {} {} -", rel, md.permissions().mode() & 0o7777, md.nlink(),
                          md.mtime() as i128 * 1_000_000_000 + md.mtime_nsec() as i128,
@@ -380,7 +416,8 @@ pub fn run() {
                         Ok((Some(p), None))
                     }
                 };
-                let key = |i: usize| -> Key { Key::new(f[i], f[i + 1].parse().unwrap(), f[i + 2].parse().unwrap()) };
+                let name_owned = if f.len() > 3 { unesc(f[3]) } else { String::new() };
+                let key = |i: usize| -> Key { Key::new(if i == 3 { &name_owned } else { f[i] }, f[i + 1].parse().unwrap(), f[i + 2].parse().unwrap()) };
                 let mut held: Option<File> = None;
                 let res: Result<String, Box<dyn std::any::Any + Send>> = std::panic::catch_unwind(std::panic::AssertUnwindSafe(|| -> String {
                     let file_line = |r: std::io::Result<Option<File>>, held: &mut Option<File>| -> String {
@@ -398,26 +435,27 @@ pub fn run() {
                     match kind {
                         "get" => file_line(caches[h].get(key(3)), &mut held),
                         "roget" => file_line(ros[h].get(key(3)), &mut held),
-                        "pget" => file_line(plains[h].get(f[3]), &mut held),
+                        "pget" => file_line(plains[h].get(&name_owned), &mut held),
                         "sget" => file_line(shardeds[h].get(key(3)), &mut held),
                         "touch" | "rotouch" | "ptouch" | "stouch" => {
                             let r = match kind {
                                 "touch" => caches[h].touch(key(3)),
                                 "rotouch" => ros[h].touch(key(3)),
-                                "ptouch" => plains[h].touch(f[3]),
+                                "ptouch" => plains[h].touch(&name_owned),
                                 _ => shardeds[h].touch(key(3)),
                             };
                             match r { Ok(b) => format!("OkBool {}", if b { 1 } else { 0 }), Err(e) => err_line(&e) }
                         }
                         "set" | "put" | "pset" | "pput" | "sset" | "sput" => {
-                            let chunks: usize = f.get(7).map(|s| s.parse().unwrap()).unwrap_or(1);
-                            let src = match stage(f[6], chunks, false) { Ok((Some(p), _)) => p, Ok(_) => unreachable!(), Err(e) => return format!("StageErr {}", err_line(&e)) };
+                            let ci = if kind.starts_with('p') && kind != "put" { 4 } else { 6 };
+                            let chunks: usize = f.get(ci + 1).map(|s| s.parse().unwrap()).unwrap_or(1);
+                            let src = match stage(f[ci], chunks, false) { Ok((Some(p), _)) => p, Ok(_) => unreachable!(), Err(e) => return format!("StageErr {}", err_line(&e)) };
                             mark("staged");
                             let r = match kind {
                                 "set" => caches[h].set(key(3), &src),
                                 "put" => caches[h].put(key(3), &src),
-                                "pset" => plains[h].set(f[3], &src),
-                                "pput" => plains[h].put(f[3], &src),
+                                "pset" => plains[h].set(&name_owned, &src),
+                                "pput" => plains[h].put(&name_owned, &src),
                                 "sset" => shardeds[h].set(key(3), &src),
                                 _ => shardeds[h].put(key(3), &src),
                             };
